@@ -73,7 +73,7 @@ def run_cell(arg):
         nm = c.get("names", "sorted")
         PARAMS = ["b", "a"] if nm == "unsorted" else ["a", "b"]
         sc = c.get("scale", "unit")
-        b2 = {"unit": BOUNDS["b"], "tiny": [0.0, 2e-5], "huge": [-1e6, 3e6]}[sc]
+        b2 = {"unit": BOUNDS["b"], "tiny": [0.0, 2e-5], "huge": [-1e6, 3e6], "free": [-np.inf, np.inf]}[sc]
         pos_bounds = [BOUNDS["a"], b2]            # bounds by *position* of the parameter
         tag_scale = sc
         items = list(zip(PARAMS, pos_bounds))
@@ -83,6 +83,8 @@ def run_cell(arg):
         tag += "|" + nm + "|" + sc
         rng = np.random.default_rng(7)
         def col2(v):       # the second column, mapped affinely from the unit-scale support [0.5, 4.5] to the declared one
+            if not np.isfinite(b2[0]):
+                return np.asarray(v)
             return b2[0] + (np.asarray(v) - BOUNDS["b"][0]) / (BOUNDS["b"][1] - BOUNDS["b"][0]) * (b2[1] - b2[0])
         data = np.stack([rng.uniform(-1.5, 2.5, 96), col2(rng.uniform(1.0, 4.0, 96))], axis=1)
         try:
@@ -146,7 +148,8 @@ def run_cell(arg):
                 lo = np.array([BOUNDS["a"][0], b2[0]]); hi = np.array([BOUNDS["a"][1], b2[1]])
                 if not (np.all(xn >= lo) and np.all(xn <= hi)):
                     out["viol"].append((f"DrawsInBounds|{tag}", f"draws outside the declared bounds: min {xn.min(0)}, max {xn.max(0)}"))
-                u = (xn - lo) / (hi - lo)
+                fin = np.isfinite(lo) & np.isfinite(hi)
+                u = (xn[:, fin] - lo[fin]) / (hi[fin] - lo[fin])
                 margin = np.minimum(u, 1 - u).min(-1)
             else:
                 margin = np.full(len(xn), 0.5)
